@@ -18,8 +18,9 @@ META = {
     'level': 'exploration',
     'engine': 'N',
     'technique': 'exhaustive enumeration of rings x host states x child policies x keys x shuffle permutations vs plan prescribed by the statement',
-    'text': 'Rings (all token assignments of <=3 hosts x <=2 tokens, 4 hosts x 1 token; thorough adds 4 hosts x <=2 tokens and 5 hosts x 1 token) x all '
-            'DC/rack layouts x SimpleStrategy rf 1-3 and NetworkTopologyStrategy settings x host states (every up/down-announced combination, plus each '
+    'text': 'Rings (all token assignments of <=3 hosts x <=2 tokens, 4 hosts x 1 token; thorough adds 5 hosts x 1 token and single-DC 4 hosts x <=2 tokens; '
+            'scripted child: <=3 hosts x 1 token, thorough adds 4 hosts x 1 token and single-DC 3 hosts x <=2 tokens) x all '
+            'DC/rack layouts (<=2 DCs x <=3 racks) x SimpleStrategy rf 1-3 and NetworkTopologyStrategy settings x host states (every up/down-announced combination, plus each '
             'single host down but not yet announced to the child) x child policy (RoundRobin, DCAwareRoundRobin local_dc x used_hosts_per_remote_dc, '
             'scripted child with every LOCAL/REMOTE/IGNORED map x 3 fixed plans) x one routing key per token range x shuffle_replicas off / on with '
             'every permutation x keyspace taken from the statement, the session, both (statement wins), or absent.  Oracle: plan == [replicas of the '
@@ -394,17 +395,21 @@ def eval_point(part, c, tap, rec, cfg, state, up, dist, si, ki, key, shuffle_fla
 
 
 def worlds(ctx):
+    """(max hosts, max tokens per host, max DCs) families for the real children and for the scripted child"""
     out = []
-    real = [(3, 2), (4, 1)] if ctx.quick else [(4, 2), (5, 1)]
-    scripted = [(3, 1)] if ctx.quick else [(4, 1), (3, 2)]
+    real = [(3, 2, 2), (4, 1, 2)]
+    scripted = [(3, 1, 2)]
+    if ctx.thorough:
+        real += [(5, 1, 2), (4, 2, 1)]
+        scripted += [(4, 1, 2), (3, 2, 1)]
     for fam, specs in (('real', real), ('scripted', scripted)):
         seen = set()
-        for mh, mt in specs:
+        for mh, mt, max_dcs in specs:
             for seq in c26.owner_sequences(mh, mt):
                 if seq in seen:
                     continue
                 seen.add(seq)
-                for locs in c26.layouts(max(seq) + 1, 2, 3):
+                for locs in c26.layouts(max(seq) + 1, max_dcs, 3):
                     out.append((fam, seq, locs))
     return real, scripted, out
 
@@ -417,7 +422,7 @@ def run_unit(unit):
 
 
 def run(ctx):
-    PL.selftest()
+    PL.selftest(light=True)
     real, scripted, ws = worlds(ctx)
     ws = ctx.rotate(ws)
     nunits = ctx.nproc * 6
@@ -425,7 +430,7 @@ def run(ctx):
     for part in ctx.pmap(run_unit, [u for u in units if u]):
         ctx.merge(part)
     ctx.cov['distinct_nontrivial'] = ctx.counters.get('nontrivial_plans', 0)
-    ctx.cov['rule'] = ('worlds = rings (max hosts, max tokens/host) real children %r, scripted child %r x all DC/rack layouts; per world: settings '
+    ctx.cov['rule'] = ('worlds = rings (max hosts, max tokens/host, max DCs) real children %r, scripted child %r x all DC/rack layouts; per world: settings '
                        '(Simple rf 1-3, NTS grid) x child configs x host states x shuffle flag x one key per token range x (all permutations of the '
                        'replica list when shuffling) + 6 keyspace-source modes; every combination is distinct. non-trivial = plan with a non-empty '
                        'replica head, a non-empty tail and at least one replica filtered out of the head (down, REMOTE or IGNORED)' % (real, scripted))
